@@ -20,7 +20,10 @@ RULE = ("family quad: every division count 0..140 (quick) / 0..400 (thorough) in
         "complex polynomials (degree ≤ class+2), A·exp(ikx), bi-polynomials and separable products on unit, shifted, far, tiny and wide "
         "intervals in both orientations; Gauss–Legendre orders 2–64 with the moment equations; all five Integrator variants with "
         "tolerances 1e-3…1e-12 under a wall-clock cap per call, all on one worker thread (call histories): Gauss–Legendre in "
-        "ascending order of node count with degrees up to 2n−1, and a sample of earlier calls repeated at the end (history independence)")
+        "ascending order of node count with degrees up to 2n−1, and a sample of earlier calls repeated at the end (history independence); "
+        "sub-run large: iteration / recursion budgets 1000–6000 (Gauss–Kronrod: derived from the measured need of the fast factor, "
+        "55–92 % used), tolerances 1e-8…1e-12, 48–64 nodes, 390–400 divisions on separable exp×exp integrands whose 1-D factors are "
+        "integrated first with the same Integrator value — accepted in 1-D ⇒ accepted, separable and accurate in 2-D")
 RESIDUAL = ("Gauss–Kronrod and Clenshaw–Curtis accuracy/termination are observed, not proved; Gauss–Legendre exactness rests on the "
             "Float moment check of the library's nodes; floating-point rounding is measured by the comparison only")
 TRUSTED_EXTRA = ["gauss_quad 0.2.4 node/weight generation (checked numerically against the moment equations on every run)",
@@ -29,4 +32,4 @@ TRUSTED_EXTRA = ["gauss_quad 0.2.4 node/weight generation (checked numerically a
 
 def families(tier, seed):
     n = 360 if tier == "quick" else 6000
-    return [("quad", seed, n, ["core"]), ("quad", seed, 1, ["gk2d"])]
+    return [("quad", seed, n, ["core"]), ("quad", seed, 1, ["gk2d"]), ("quad", seed, 1, ["large"])]
